@@ -15,7 +15,10 @@ class P(C07):
                (3, 4, 18075649, 18075650, 36044801, 36044802, 23359489, 23359490, 2),
                (3, 3, 3, 3, 4, 4, 4, 4, 1),
                tuple(range(100, 116)) + (2,), tuple(range(100, 132)) + (1,), tuple(range(100, 164)) + (2, 1),
-               tuple(range(5, 13)) + (1,) + tuple(range(13, 40))]
+               tuple(range(5, 13)) + (1,) + tuple(range(13, 40)),
+               # the same type listed TWICE (a list given in the file and again on the command line is appended to, never de-duplicated):
+               # the other type is still delivered
+               (2, 2), (1, 1), (7, 2, 2), (1, 1, 9), (2, 2, 2), (1, 2, 2), (2, 1, 1, 2)]
 
     def rule(self):
         return ("the C07 datagram stream, each datagram decoded under one of the filter lists %s (unsorted lists included); "
